@@ -5,6 +5,10 @@ From J5V.lib Require Import Outcome Json.
 From J5V.model Require Import CodecTypes CodecDecScalar CodecDec CodecDecQuery CodecDecTree.
 From J5V.lib Require Base64.
 From J5V.proofs Require Import CodecDecProofs CodecDecExact CodecDecTreeProofs CodecDecFaults CodecDecStored CodecDecBase64 CodecDecVariants.
+From J5V.model Require CodecDecTime.
+From J5V.proofs Require CodecDecTime.
+From J5V.lib Require Civil Decimal.
+From J5V.proofs Require CodecDecDecimal CodecDecTimeFast.
 Import ListNotations.
 Local Open Scope N_scope.
 
@@ -369,6 +373,115 @@ Proof.
   eapply VM_member; [reflexivity | reflexivity | split; discriminate | | apply VM_same; apply VM_nil].
   apply V_scalar; [reflexivity | reflexivity | split; discriminate | vm_compute; reflexivity].
 Qed.
+
+(* ------------------------------------------------------------------ timestamps *)
+(* time.Parse(time.RFC3339, .) is modelled (model/CodecDecTime.v: Go's general layout parser, which
+   subsumes the strict fast path) and compared with the real function on every timestamp text of the
+   run.  A text is described by its fields: year, month, day, the hour written with two digits or one,
+   minute, second, an optional fraction after '.' or ',', and the zone 'Z' or sign hh:mm.
+   [shape]: the fields fit their digit positions; [in_range]: month 1..12, day 1..days of that month
+   in that year, hour <= 23, minute, second <= 59, zone at most 24:60.
+   - the parser accepts [text f] iff the fields are in range, and returns the instant they denote:
+     (days_from_civil y m d * 86400 + time of day - zone offset, first nine fraction digits as ns);
+   - everything the parser accepts is such a text: any other text is rejected. *)
+Module T := J5V.proofs.CodecDecTime.
+Theorem C03_timestamp_text_reading : forall f, T.shape f ->
+  CodecDecTime.go_time_parse (T.text f) = if T.in_range f then Some (T.instant f, T.nanos f) else None.
+Proof. exact T.time_parse_text. Qed.
+Print Assumptions C03_timestamp_text_reading.
+
+Theorem C03_timestamp_accepted_only_texts : forall s sec ns, CodecDecTime.go_time_parse s = Some (sec, ns) ->
+  exists f, T.shape f /\ T.in_range f = true /\ s = T.text f /\ sec = T.instant f /\ ns = T.nanos f.
+Proof. exact T.time_parse_inv. Qed.
+Print Assumptions C03_timestamp_accepted_only_texts.
+
+(* the field kind, with the oracle of the decoder model being that function: one instant written at
+   any two offsets (or with one-digit hour, ',' fraction, longer fraction with the same first nine
+   digits) is stored as the same Timestamp; out-of-range fields and every other text are rejected *)
+Theorem C03_timestamp_exact : forall orc f, T.time_oracle_is_model orc -> T.shape f -> T.in_range f = true ->
+  scalar_from_go orc KTimestamp (GStr (T.text f)) = Ok (Some (mk_timestamp (T.instant f) (T.nanos f))).
+Proof. exact T.timestamp_reading. Qed.
+Print Assumptions C03_timestamp_exact.
+
+Theorem C03_timestamp_any_offset : forall orc f g, T.time_oracle_is_model orc ->
+  T.shape f -> T.shape g -> T.in_range f = true -> T.in_range g = true ->
+  T.instant f = T.instant g -> T.nanos f = T.nanos g ->
+  scalar_from_go orc KTimestamp (GStr (T.text f)) = scalar_from_go orc KTimestamp (GStr (T.text g)).
+Proof. exact T.timestamp_any_offset. Qed.
+Print Assumptions C03_timestamp_any_offset.
+
+Theorem C03_timestamp_out_of_range_rejected : forall orc f, T.time_oracle_is_model orc ->
+  T.shape f -> T.in_range f = false -> is_err (scalar_from_go orc KTimestamp (GStr (T.text f))) = true.
+Proof. exact T.timestamp_out_of_range_rejected. Qed.
+Print Assumptions C03_timestamp_out_of_range_rejected.
+
+Theorem C03_timestamp_other_text_rejected : forall orc s, T.time_oracle_is_model orc ->
+  (forall f, T.shape f -> T.in_range f = true -> s <> T.text f) ->
+  is_err (scalar_from_go orc KTimestamp (GStr s)) = true.
+Proof. exact T.timestamp_other_text_rejected. Qed.
+Print Assumptions C03_timestamp_other_text_rejected.
+
+(* at document level: the two spellings are variants of each other, so C03_respelled_documents_same_result
+   applies to documents that differ in timestamps at different offsets, at any depth *)
+Theorem C03_timestamp_spellings_are_variants : forall orc e f g, T.time_oracle_is_model orc ->
+  T.shape f -> T.shape g -> T.in_range f = true -> T.in_range g = true ->
+  T.instant f = T.instant g -> T.nanos f = T.nanos g ->
+  variant orc e (FScalar KTimestamp) (JStr (T.text f)) (JStr (T.text g)).
+Proof. exact T.timestamp_variant. Qed.
+Print Assumptions C03_timestamp_spellings_are_variants.
+
+(* "2020-01-01T10:00:00+10:00" is 2020-01-01T00:00:00Z = 1577836800; February 2021 has no 29th *)
+Example C03_example_timestamps :
+  T.text T.ex_offset = [50;48;50;48;45;48;49;45;48;49;84;49;48;58;48;48;58;48;48;43;49;48;58;48;48] /\
+  CodecDecTime.go_time_parse (T.text T.ex_offset) = Some (1577836800%Z, 0%Z) /\
+  CodecDecTime.go_time_parse (T.text T.ex_utc) = Some (1577836800%Z, 0%Z) /\
+  CodecDecTime.go_time_parse (T.text (T.mkT 2021 2 29 false 0 0 0 None None)) = None.
+Proof. repeat split; vm_compute; reflexivity. Qed.
+
+(* the strict fast path of time.Parse (lib/Civil.v parse_rfc3339, against which the encoder's timestamp
+   text is proved to read back) is subsumed by the modelled parser *)
+Theorem C03_time_fast_path_subsumed : forall s r,
+  Civil.parse_rfc3339 s = Some r -> CodecDecTime.go_time_parse s = Some r.
+Proof. exact CodecDecTimeFast.fast_path_extends. Qed.
+Print Assumptions C03_time_fast_path_subsumed.
+
+(* ------------------------------------------------------------------ decimals *)
+(* decimal.NewFromString / Decimal.String() are modelled by lib/Decimal.v (dec_parse, dec_print: a decimal
+   is mantissa * 10^exponent) and compared with the library on every run.  With the decoder model's
+   decimal oracle being that model: a text is accepted, quoted or bare, iff dec_parse reads it with an
+   exponent within +-1000; what is stored is the canonical text dec_print m e, and that text reads back
+   as a numerically equal decimal — the stored value is exactly the number the member denotes; every
+   other text is rejected. *)
+Module D := J5V.proofs.CodecDecDecimal.
+Theorem C03_decimal_exact : forall orc quoted s c, D.decimal_oracle_is_model orc ->
+  scalar_from_go orc KDecimal (D.dec_goval quoted s) = Ok (Some (mk_decimal c)) ->
+  exists m e b, Decimal.dec_parse s = Some (m, e) /\ c = Decimal.dec_print m e /\
+                Decimal.dec_parse c = Some b /\ Decimal.dec_eq (m, e) b.
+Proof. exact D.decimal_exact. Qed.
+Print Assumptions C03_decimal_exact.
+
+Theorem C03_decimal_accepted : forall orc quoted s m e, D.decimal_oracle_is_model orc ->
+  Decimal.dec_parse s = Some (m, e) -> (Z.abs e <= max_decimal_exponent)%Z ->
+  scalar_from_go orc KDecimal (D.dec_goval quoted s) = Ok (Some (mk_decimal (Decimal.dec_print m e))).
+Proof. exact D.decimal_accepted. Qed.
+Print Assumptions C03_decimal_accepted.
+
+Theorem C03_decimal_invalid_rejected : forall orc quoted s, D.decimal_oracle_is_model orc ->
+  Decimal.dec_parse s = None -> is_err (scalar_from_go orc KDecimal (D.dec_goval quoted s)) = true.
+Proof. exact D.decimal_invalid_rejected. Qed.
+Print Assumptions C03_decimal_invalid_rejected.
+
+Theorem C03_decimal_exponent_rejected : forall orc quoted s m e, D.decimal_oracle_is_model orc ->
+  Decimal.dec_parse s = Some (m, e) -> (max_decimal_exponent < Z.abs e)%Z ->
+  is_err (scalar_from_go orc KDecimal (D.dec_goval quoted s)) = true.
+Proof. exact D.decimal_exponent_rejected. Qed.
+Print Assumptions C03_decimal_exponent_rejected.
+
+(* "1.50" reads as 150 * 10^-2 and is stored as "1.5"; "1.2.3" and "abc" are not decimals *)
+Example C03_example_decimals :
+  Decimal.dec_parse [49;46;53;48] = Some (150%Z, (-2)%Z) /\ Decimal.dec_print 150 (-2) = [49;46;53] /\
+  Decimal.dec_parse [49;46;50;46;51] = None /\ Decimal.dec_parse [97;98;99] = None.
+Proof. repeat split; vm_compute; reflexivity. Qed.
 
 (* ------------------------------------------------------------------ URL query parameters *)
 (* a scalar supplied as the single value of a query parameter is stored exactly as the JSON member
